@@ -1550,3 +1550,130 @@ pub fn gen_c04(rng: &mut Rng, d: &mut Dist, idx: u64) -> Vec<String> {
     out.push(format!("OP c fetch_messages {} 0 0 -1", h(&t.name)));
     out
 }
+
+/// append 1-3 random batches to a partition log starting at `off`; returns the new end offset
+pub fn append_batches(rng: &mut Rng, d: &mut Dist, out: &mut Vec<String>, topic: &str, p: usize, mut off: i64, maxb: u64) -> i64 {
+    let nb = 1 + rng.below(maxb);
+    for _ in 0..nb {
+        let n = 1 + rng.below(4) as i64;
+        let mut toks = String::new();
+        let mut plain: Vec<u8> = Vec::new();
+        let first = off;
+        let mut last = off;
+        for _ in 0..n {
+            let k = if rng.chance(1, 3) { None } else { Some(rng.rbytes(0, 4)) };
+            let v = if rng.chance(1, 8) { None } else { Some(rng.rbytes(0, 12)) };
+            plain.extend(raw_msg(off, 0, k.as_deref(), v.as_deref(), 0));
+            toks.push_str(&format!(" {} {} {}", off, opt_tok(&k), opt_tok(&v)));
+            last = off;
+            off += 1 + if rng.chance(1, 6) { rng.below(3) as i64 } else { 0 };
+        }
+        match rng.below(7) {
+            0 | 1 | 2 => {
+                bump(d, "batch-plain");
+                out.push(format!("APPEND {} {} plain{}", h(topic), p, toks));
+            }
+            3 => {
+                bump(d, "batch-gzip");
+                out.push(format!("APPENDRAW {} {} {} {} {}", h(topic), p, first, last, hex(&real_wrapper(rng, 1, last, &plain))));
+            }
+            4 => {
+                bump(d, "batch-snappy");
+                out.push(format!("APPENDRAW {} {} {} {} {}", h(topic), p, first, last, hex(&real_wrapper(rng, 2, last, &plain))));
+            }
+            5 => {
+                bump(d, "batch-lean-codec");
+                out.push(format!("APPEND {} {} comp {} 50{}", h(topic), p, 1 + rng.below(2), toks));
+            }
+            _ => {
+                bump(d, "batch-nested");
+                let c1 = 1 + rng.below(2) as u8;
+                let c2 = 1 + rng.below(2) as u8;
+                let inner = real_wrapper(rng, c2, last, &plain);
+                out.push(format!("APPENDRAW {} {} {} {} {}", h(topic), p, first, last, hex(&real_wrapper(rng, c1, last, &inner))));
+            }
+        }
+    }
+    off
+}
+
+/// C01: cluster layouts x partition logs (gaps, batch boundaries, codecs, empty partitions next to non-empty ones,
+/// entries cut by max_bytes) x response orders x histories of poll / seek / appends / injected partition errors /
+/// I/O failures, finished by fault-free polls until one returns empty.
+pub fn gen_c01(rng: &mut Rng, d: &mut Dist, _idx: u64) -> Vec<String> {
+    let cl = Cluster::random(rng, 4, true);
+    let mut out = cl.setup_lines();
+    bump(d, &format!("brokers-{}", cl.brokers.len()));
+    let mut ends: Vec<(String, usize, i64)> = Vec::new();
+    for t in &cl.topics {
+        for p in 0..t.leaders.len() {
+            let mut off = rng.below(3) as i64;
+            if t.leaders[p] >= 0 && !rng.chance(1, 3) {
+                off = append_batches(rng, d, &mut out, &t.name, p, off, 3);
+            } else {
+                bump(d, "partition-empty");
+            }
+            ends.push((t.name.clone(), p, off));
+        }
+    }
+    match rng.below(4) {
+        0 => out.push("ORDER rev".into()),
+        1 => out.push(format!("ORDER rot {}", 1 + rng.below(3))),
+        _ => {}
+    }
+    // fetch size: generous, or small enough to cut entries (with a retry limit that still lets every entry through)
+    let small = rng.chance(1, 3);
+    let mut opts: Vec<String> = cl.topics.iter().map(|t| format!("topic={}", h(&t.name))).collect();
+    opts.push("fallback=earliest".into());
+    if small {
+        bump(d, "fetch-size-small");
+        opts.push(format!("maxbytes={}", 40 + rng.below(200)));
+        opts.push("retrylimit=1000000".into());
+    }
+    rng.shuffle(&mut opts);
+    out.push(format!("OP consumer_create hosts={} {}", cl.bootstrap(), opts.join(" ")));
+    let nops = 2 + rng.below(10);
+    for _ in 0..nops {
+        match rng.below(10) {
+            0 => {
+                // inject a partition error into the next fetch
+                let t = rng.pick(&cl.topics);
+                let p = rng.below(t.leaders.len() as u64);
+                out.push(format!("FAULT 1 {} {} {} 1", h(&t.name), p, rng.pick(&[1i64, 3, 6, 9, 100])));
+                bump(d, "fault-partition-error");
+                out.push("OP poll".into());
+            }
+            1 => {
+                bump(d, "fault-io");
+                out.push(format!("H {} 0", rng.pick(&["fail_send", "fail_recv"])));
+                out.push("OP poll".into());
+                out.push("H clear_faults".into());
+            }
+            2 => {
+                bump(d, "seek");
+                let (t, p, end) = rng.pick(&ends[..]).clone();
+                out.push(format!("OP seek {} {} {}", h(&t), p, if end == 0 { 0 } else { rng.range(0, end) }));
+            }
+            3 | 4 => {
+                bump(d, "append");
+                let i = rng.below(ends.len() as u64) as usize;
+                let (t, p, end) = ends[i].clone();
+                let leader = cl.topics.iter().find(|x| x.name == t).unwrap().leaders[p];
+                if leader >= 0 {
+                    let ne = append_batches(rng, d, &mut out, &t, p, end, 2);
+                    ends[i].2 = ne;
+                }
+            }
+            _ => {
+                bump(d, "poll");
+                out.push("OP poll".into());
+            }
+        }
+    }
+    // drain: fault-free polls until empty (bounded)
+    out.push("H clear_faults".into());
+    for _ in 0..40 {
+        out.push("OP poll".into());
+    }
+    out
+}
